@@ -59,6 +59,13 @@ class Horizon(O.Monitor):
 
     def after(self, Q, node, etype, nxt):
         self.call_events += 1
+        for nd in Q.transitive_nodes:
+            # "every event scheduled before T is executed" presupposes that every node knows its next event
+            saved = nd.next_event_date
+            nd.update_next_event_date()
+            if nd.next_event_date != saved and saved == saved:
+                Q.report(self.P, "C14.every-pending-event-is-scheduled", etype, {"node": nd.id_number, "stored": O._num(saved),
+                                                                                "recomputed": O._num(nd.next_event_date), "event": nd.next_event_type})
         st = Q.cur_step
         if st[0] == "max_customers":
             self.counts.append(truth_count(Q, st[2], self.cache))
@@ -69,6 +76,8 @@ class Horizon(O.Monitor):
             self.counts = []
         if st[0] == "max_time":
             T = st[1]
+            for nd in Q.transitive_nodes:
+                nd.update_next_event_date()      # the true schedule, recomputed from the nodes' state (a no-op when bookkeeping is right)
             dates = [nd.next_event_date for nd in Q.active_nodes]
             m = min(dates)
             if m < T:
